@@ -119,7 +119,7 @@ pub fn c13_translocate_n3() {
     if k == 15 { translocate_case::<3>(2, 2, 1); }
     if k == 16 { translocate_case::<3>(2, 2, 2); }
 }
-/// @verif anchor=translocate_slice bound="length 4; all 36 valid (range, index) cases; all contents (in-place implementation alone)"
+/// @verif anchor=translocate_slice tier=thorough bound="length 4; all 36 valid (range, index) cases; all contents (in-place implementation alone)"
 #[cfg_attr(kani, kani::proof)] #[cfg_attr(kani, kani::unwind(7))]
 pub fn c13_translocate_single_n4() {
     let k: usize = sym();
